@@ -35,9 +35,18 @@ def read(source, format=None):
     if format:
         return ProvDocument.deserialize(source=source, format=format.lower())
 
+    content = None
+    if hasattr(source, "read"):
+        # a stream can be consumed only once: read it here and try the formats
+        # on what it held (a second attempt would otherwise see an empty stream)
+        content = source.read()
+        source = None
+
     for format in serializers:
         try:
-            return ProvDocument.deserialize(source=source, format=format)
+            return ProvDocument.deserialize(
+                source=source, content=content, format=format
+            )
         except:
             pass
     else:
